@@ -70,9 +70,8 @@ pub fn main(args: &[String]) {
             if v < n {
                 continue;
             }
-            if alias_calls % 6 == 0 {
-                let _ = classify(cp);
-            }
+            // the real code point is (re-)asked immediately before each of its aliases
+            let _ = classify(cp);
             alias_calls += 1;
             let got = [class_value_g("Id", v), class_value_g("Ff", v)];
             if got != ["DISALLOWED", "DISALLOWED"] && problems.len() < 50 {
